@@ -263,6 +263,7 @@ THEOREMS = [
     "MenpoModel.C13.Src.extractPatchesAroundLandmarks_eq_core",
     "MenpoModel.C13.Src.convertStep_inv",
     "MenpoModel.C13.Src.convertPatchesList_eq_core",
+    "MenpoModel.C13.Src.convertPatchesListIdx_eq",
     "MenpoModel.C13.Src.setPatchesApi_single_eq_core",
     "MenpoModel.C13.Src.setPatchesApi_list_eq_core",
     "MenpoModel.C13.Src.setPatchesApi_bad_offset",
